@@ -66,9 +66,10 @@ def compress (h : H5) (x : Array UInt32) : H5 := Id.run do
     r := ⟨r.e, t, r.b, rl r.c 10, r.d⟩
   return ⟨h.b + l.c + r.d, h.c + l.d + r.e, h.d + l.e + r.a, h.e + l.a + r.b, h.a + l.b + r.c⟩
 
-partial def blocks (ws : List UInt32) (s : H5) : H5 :=
-  let blk := (ws.take 16).toArray
-  if blk.size < 16 then s else blocks (ws.drop 16) (compress s blk)
+def blocks (ws : List UInt32) (s : H5) : H5 :=
+  if _h : ws.length < 16 then s else blocks (ws.drop 16) (compress s (ws.take 16).toArray)
+termination_by ws.length
+decreasing_by simp only [List.length_drop]; omega
 
 def out32le (x : UInt32) : Bytes := [x.toUInt8, (x >>> 8).toUInt8, (x >>> 16).toUInt8, (x >>> 24).toUInt8]
 def ripemd160 (msg : Bytes) : Bytes :=
@@ -81,7 +82,10 @@ def hash160 (b : Bytes) : Bytes := ripemd160 (Sha.sha256 b)
 /-! Base58 (numeric definition) -/
 def b58chars : Array Char := "123456789ABCDEFGHJKLMNPQRSTUVWXYZabcdefghijkmnopqrstuvwxyz".toList.toArray
 def toNatBE (bs : Bytes) : Nat := bs.foldl (fun acc b => acc * 256 + b.toNat) 0
-partial def digits58 (n : Nat) (acc : List Nat) : List Nat := if n = 0 then acc else digits58 (n / 58) (n % 58 :: acc)
+def digits58 (n : Nat) (acc : List Nat) : List Nat :=
+  if _h : n = 0 then acc else digits58 (n / 58) (n % 58 :: acc)
+termination_by n
+decreasing_by omega
 def base58 (bs : Bytes) : String :=
   let z := (bs.takeWhile (· == 0)).length
   String.ofList (List.replicate z '1' ++ (digits58 (toNatBE bs) []).map (fun d => b58chars[d]!))
